@@ -12,6 +12,21 @@
    Wire operations, three numbers each (code a b):
      0 Create kind=a slot=b | 1 Build handles packed in a (5 bits each), count b | 2 Insert map=a region=b
      3 Remove map=a, b = 2*slot + (1 if the size argument is wrong) | 4 Clone a | 5 Snapshot a | 6 Drop a
+   Refusals and consumed arguments (added; the property: "creating and dropping regions and maps in any order neither
+   leaks address space nor leaves a live handle pointing at unmapped memory"):
+     7 CreateRefused variant=a slot=b: a creation the library is expected to refuse.  Variants 0-5 are refused before
+       anything is mapped (file range past EOF, overflowing file range, MAP_FIXED anonymous / file, misaligned raw
+       pointer through the builder / through build_raw): no region id; the observation's val is the number of
+       STRAY mappings the call left behind (mappings of the request's backing file), which must be 0.  Variants 6-8: an
+       anonymous / file / raw MmapRegion is built and handed to GuestRegionMmap::new with a guest base that
+       overflows; `new` consumes it: the mapping gets the next region id, no handle reaches it, so it must be gone
+       after the call - unless it is a raw (external) one, which must still be there.
+       Whether the library refuses is C15's business: a request it accepts is dropped at once by the harness, and
+       nothing may stay mapped either way.
+     8 BuildMove: from_arc_regions / (b >= 16) from_regions over the handles THEMSELVES (packed in a, count b mod 16):
+       the handles are consumed whether the answer is Ok or Err (from_regions needs every Arc unshared: if one is
+       shared nothing happens, st 0)
+     9 InsertMove map=a region=b: insert_region(the handle's Arc itself): handle b is consumed, Ok or Err
    Observation per operation: st (1 done, 2 the library returned Err, 0 not possible), val (bit set of
    the region ids reachable through the handle the operation returned - ids are read from the region
    BYTES), live (bit r set iff region r's memory is still mapped, from /proc/self/maps). *)
@@ -122,3 +137,60 @@ Fixpoint ok_from (s : sstate) (ops : list wop) (obs : list wobs) {struct ops} : 
   | _, _ => false
   end.
 Definition ok_C12 (ops : list wop) (obs : list wobs) : bool := ok_from sinit ops obs.
+
+(* ---- operations with refusals / consumed arguments (Spec/C12xen.v builds on [wop] above, which stays as it is) *)
+Inductive wopr := WB (o : wop) | WCreateRefused (v slot : N) | WBuildMove (unwrap : bool) (hs : list nat)
+  | WInsertMove (hm hr : nat).
+
+Fixpoint skill (hs : list nat) (l : list (option shandle)) {struct hs} : list (option shandle) :=
+  match hs with [] => l | h :: t => skill t (sset_nth l h None) end.
+Fixpoint snodup (l : list nat) {struct l} : bool :=
+  match l with [] => true | x :: t => negb (existsb (Nat.eqb x) t) && snodup t end.
+
+Definition spec_opr (s : sstate) (o : wopr) (b : wobs) : option sstate :=
+  let done := w_st b =? 1 in
+  let failed := (w_st b =? 2) && (w_val b =? 0) in
+  let refused := (w_st b =? 0) && (w_val b =? 0) in
+  match o with
+  | WB w => spec_op s w b
+  | WCreateRefused v slot =>
+      (* no handle comes out of it and no stray mapping is left (val = 0), whether the library refused (2) or the
+         harness dropped what it got (1) *)
+      if ((w_st b =? 1) || (w_st b =? 2)) && (w_val b =? 0) then
+        if v <? 6 then Some s
+        else Some {| k_kinds := k_kinds s ++ [((v - 6) mod 3, slot)]; k_hs := k_hs s |}
+      else None
+  | WBuildMove unwrap hs =>
+      match sregion_handles s hs with
+      | Some rs =>
+          if snodup hs then
+            if done && (w_val b =? mask_of rs)
+            then Some {| k_kinds := k_kinds s; k_hs := skill hs (k_hs s) ++ [Some (SMap rs)] |}
+            else if failed then Some {| k_kinds := k_kinds s; k_hs := skill hs (k_hs s) |}
+            else if unwrap && refused then Some s           (* some Arc is shared: try_unwrap impossible, nothing happened *)
+            else None
+          else if refused then Some s else None
+      | None => if refused then Some s else None end
+  | WInsertMove hm hr =>
+      match k_get s hm, k_get s hr with
+      | Some (SMap rs), Some (SRegion r) =>
+          if done && (w_val b =? mask_of (r :: rs))
+          then Some {| k_kinds := k_kinds s; k_hs := sset_nth (k_hs s) hr None ++ [Some (SMap (r :: rs))] |}
+          else if failed then Some {| k_kinds := k_kinds s; k_hs := sset_nth (k_hs s) hr None |}
+          else None
+      | _, _ => if refused then Some s else None end
+  end.
+
+Definition spec_stepr (s : sstate) (o : wopr) (b : wobs) : option sstate :=
+  match spec_opr s o b with
+  | Some s' => if w_live b =? expected_live s' then Some s' else None
+  | None => None end.
+Fixpoint ok_fromr (s : sstate) (ops : list wopr) (obs : list wobs) {struct ops} : bool :=
+  match ops, obs with
+  | [], [] => true
+  | o :: ops', b :: obs' =>
+      match spec_stepr s o b with Some s' => ok_fromr s' ops' obs' | None => false end
+  | _, _ => false
+  end.
+(* the checker of suite C12: histories over the extended operations *)
+Definition ok_C12r (ops : list wopr) (obs : list wobs) : bool := ok_fromr sinit ops obs.
